@@ -17,7 +17,7 @@ def _fam(th):
            " in {absent, 'q'}, X-V in {absent, empty, b}; R2: Accept-Encoding" + f("", ", User-Agent") + " in {absent, empty, 'q'}, X-V in {absent, 'q'" + f("", ", empty") + "}" + _c, _MO),
         _e("c13_names", "(a) Vary '.x-v, user-agent' | 'User-.Agent,x-v'" + f("", " (and '.x-v' there) | '.x-v, X-.V'") + " with the case of the dotted letter symbolic; User-Agent in {absent,'q'}, X-V 'q' (R1), in {'q','r'} (R2); "
            "(b) variant stored under one of 'x-v, User-Agent' | 'user-agent,X-V' | 'x-v, X-V' | 'X-v'" + f("", " | 'user-agent' | two lines 'x-v','user-agent'") + ", marker object carrying any of the same list; "
-           "User-Agent and X-V each in {absent, 'q'" + f("", ", b / 'r'") + "} in both requests" + _c, _MO),
+           "User-Agent and X-V each in {absent, 'q'" + f("", ", empty / 'r'") + "} in both requests" + _c, _MO),
         _e("c13_inject", "(1) variant stored under 'x-v, accept-encoding' by X-V '1', Accept-Encoding '2'; marker 'x-v'; R2 X-V = '1' b ', accept-encoding=' " + f("'\"'", "b") + " '2'; "
            "(2) Vary 'x-v': R1 X-V in {'\"', ' ', '%'" + f("", ", 'a'") + "}, R2 X-V in {b '22', b '20'" + f("", ", b '25', '%' b '2'") + "}; "
            "(3) Vary 'accept-encoding, x-v': R1 Accept-Encoding '1\", x-v=\"2', X-V '3'; R2 Accept-Encoding '1', X-V '2' b ', x-v=\"3'" + _c, ("other-variant",)),
@@ -56,7 +56,10 @@ SPEC = dict(
                  "for an item equal to it case-insensitively, and nothing for items containing a double quote (not valid Vary syntax)",
                  "'match' = same presence, same length, same bytes; each request carries at most one field line per nominated name (Squid's joining of several lines with ', ' is the "
                  "normalisation RFC 9111 4.1 allows and is not exercised)",
-                 "X_ACCELERATOR_VARY is off in this build (configure default)"],
+                 "X_ACCELERATOR_VARY is off in this build (configure default)",
+                 "KNOWN-FINDING candidate excluded by vf_assume in every family: a nominated registered single-value header field (User-Agent in these families) present with an "
+                 "empty value in one request and absent from the other -- both get the mark 'user-agent' and varyEvaluateMatch() answers VARY_MATCH (String's copy constructor "
+                 "turns the zero-length value returned by HttpHeader::getStrOrList() into an undefined String, which assembleVaryKey() reads as 'absent')"],
     outside="Vary texts, names and values other than the listed families (values longer than the templates, more than two nominated names, names other than Accept-Encoding, User-Agent, X-V); "
             "several request field lines with the same name; everything listed under gap",
 )
